@@ -430,6 +430,8 @@ def r7(ctx):
         if not tag or tag[0] != "call" or tag[1] != "cls":
             raise AnalysisError(f"CompileCommand.from_json: result is not cls(...): {p.describe()[:160]}")
         pos, kw = tag[2], tag[3]
+        if any(vt(x).startswith("*") for x in pos) or any(k is None or str(k).startswith("*") for k in kw):
+            raise AnalysisError("CompileCommand.from_json: cls(...) is called with unpacked arguments: not decided")
         fields = dict(kw)
         if pos:
             fields["filename"] = pos[0]
